@@ -113,6 +113,6 @@ func TestC16(t *testing.T) {
 			"The model fixes the flag at creation: an operation touching a system entity (or creating one) from an ordinary context must fail and leave the dump unchanged, every other operation must succeed, and after every transaction the stored flag of every entity equals its creation flag. " +
 			"Non-trivial history: a refusal followed by a committed transaction, or an update that tries to flip the flag. Distinct by hash of the history JSON.",
 		Gen: genC16, Run: runC16,
-		QuickChecks: 600, ThoroughFactor: 20,
+		QuickChecks: 1200, ThoroughFactor: 10,
 	})
 }
